@@ -69,12 +69,12 @@ def run_search(repo: Repo, res: Result) -> None:
                 continue
             n += 1
             key = repo.key(fi, stmt_of(ev.call))
-            if not m.hier_calls:
-                res.add("C01.S", key, False, f"{ev.kind} of `{ev.what}` although neighbours are never classified by {S.HIER}", where(fi, ev.call), kind="dominance")
-                continue
             H = m.hier(ev.nvar)
             is_h = implies(ev.guard, H)
             not_h = implies(ev.guard, f_not(H))
+            if not is_h and not not_h and ev.kind != "mark" and not any(f".{S.HIER}(" in a for e2 in m.events for a in atoms_of(e2.guard)):
+                res.add("C01.S", key, False, f"{ev.kind} of `{ev.what}` although neighbours are never classified by {S.HIER}", where(fi, ev.call), kind="dominance")
+                continue
             if ev.kind == "record":
                 if m.role == "submodules":
                     ok = is_h
@@ -196,4 +196,47 @@ def run_lookup(repo: Repo, res: Result, rule_id: str = "C13.R6") -> int:
         fi = f.model.fi
         n += 1
         res.add(rule_id, f"{fi.relpath}::{getattr(fi, 'shown', fi.qualname)}::lookup of {f.param}", f.ok, f.detail, where(fi, fi.node), kind="dominance")
+    return n
+
+
+def run_closure(repo: Repo, res: Result, rule_id: str = "C03.R1") -> int:
+    """C03.R1 worklist closure of the 'something else' searches, on the model's events: every push stays inside the subject's
+    sub-tree or the excluded objects, the worklist starts from the subject's sub-tree, excluded nodes are not expanded.
+    Returns the number of obligations added."""
+    n = 0
+    for m in S.models(repo):
+        if m.role != "other":
+            continue
+        fi = m.fi
+        shown = getattr(fi, "shown", fi.qualname)
+        subj = m.subject_param or (fi.param_names[1] if m.direction == "succ" else fi.param_names[2])
+        own = [v for v, p in m.submodule_sets.items() if p == subj]
+        exc = [v for v, p in m.accumulated_sets.items() if p != subj]
+        if not own or not exc:
+            res.undecide(rule_id, repo.key(fi, m.loop), f"the subject's own sub-tree / the accumulated sub-trees of the objects are not recognised (own: {own}, excluded: {exc})", where(fi, m.loop))
+            continue
+        pushes = [e for e in m.events if e.kind == "push"]
+        for e in pushes:
+            n += 1
+            goal = f_or([atom(f"{e.what} in {s}") for s in own + exc])
+            ok = implies(e.guard, goal)
+            res.add(
+                rule_id,
+                repo.key(fi, stmt_of(e.call)) + " [push stays inside subject or excluded objects]",
+                ok,
+                "pushed node is inside the subject's subtree or an excluded object (skipped when popped)" if ok else f"`{e.what}` is pushed under `{e.guard_text}`, which does not imply `{e.what} in {own[0]} or {e.what} in {exc[0]}`: modules unrelated to the rule's subject are expanded and their imports reported",
+                where(fi, e.call),
+                kind="dominance",
+            )
+        n += 1
+        ok = bool(m.worklist_sources) and all(s in own for s in m.worklist_sources)
+        anchor = m.worklist_inits[0] if m.worklist_inits else m.loop
+        res.add(rule_id, repo.key(fi, anchor) + " [worklist start]", ok, f"worklist starts from {S.SUBMODULES}(graph, {subj})" if ok else f"worklist starts from {m.worklist_sources}, not from the subject's subtree `{own[0]}`", where(fi, anchor), kind="structural")
+        n += 1
+        if pushes:
+            g = m.guard_of(m.neighbour_call)
+            ok = any(implies(g, f_not(atom(f"{m.popped} in {x}"))) for x in exc)
+            res.add(rule_id, f"{fi.relpath}::{shown}::excluded nodes are not expanded", ok, "popped nodes in the excluded set are skipped" if ok else f"a popped node in `{exc[0]}` is expanded: imports of the rule's objects are reported as the subject's", where(fi, m.neighbour_call), kind="dominance")
+        else:
+            res.add(rule_id, f"{fi.relpath}::{shown}::no push", True, "the search never extends its worklist beyond the subject's subtree", where(fi, fi.node), nontrivial=False)
     return n
